@@ -14,6 +14,7 @@ import (
 	"os"
 	"path"
 	"path/filepath"
+	"regexp"
 	"sort"
 	"strings"
 	"syscall"
@@ -1027,6 +1028,7 @@ func runC05(c *Ctx) {
 		}
 	}
 	syscall.Umask(0o022)
+	c05BigDirs(c, base)
 	ks := make([]string, 0, len(prefixes))
 	for k := range prefixes {
 		ks = append(ks, k)
@@ -1088,6 +1090,7 @@ func (w *c05World) runSeq(s int, nodes []c05Node, nsteps int, next func(int) *c0
 		keyA, keyB := c05SnapKey(w, prevA), c05SnapKey(w, prevB)
 		for i := 0; i < nsteps; i++ {
 			op := next(i)
+			beforeA, beforeB := prevA, prevB
 			pre1 := "none"
 			if pp := op.prePath(); pp != "" {
 				t := strings.TrimRight(pp, "/")
@@ -1118,6 +1121,13 @@ func (w *c05World) runSeq(s int, nodes []c05Node, nsteps int, next func(int) *c0
 			snapA := w.snapshot(w.base+"/A", w.rootA)
 			snapB := w.snapshot(w.base+"/B", w.rootB)
 			nkA, nkB := c05SnapKey(w, snapA), c05SnapKey(w, snapB)
+			prevA, prevB = snapA, snapB
+			// the name-space model (coq/Fs/Tree.v): what the Client did to tree A against the model of its composite operations
+			// (kind fsop), what package os did to tree B against the model's specifications (kind fsspec)
+			if c05ModelOp(op) {
+				w.emitFs("fsop", s, i, op, beforeA, snapA, a.cat)
+				w.emitFs("fsspec", s, i, op, beforeB, snapB, b.cat)
+			}
 			changed := nkA != keyA || nkB != keyB
 			if changed {
 				c.Stat("tree_changed")
@@ -1179,4 +1189,172 @@ func (w *c05World) runSeq(s int, nodes []c05Node, nsteps int, next func(int) *c0
 		}
 	}
 	return true
+}
+
+// ---------------------------------------------------------------- the tie to coq/Fs/Tree.v
+
+var c05PlainPath = regexp.MustCompile(`^[a-d](/[a-d])*$`)
+
+// c05ModelOp: the operations the name-space model covers, on paths made of plain components
+func c05ModelOp(op *c05Op) bool {
+	switch op.name {
+	case "mkdir", "mkdirall", "remove", "rmdir", "removeall":
+		return c05PlainPath.MatchString(op.p1)
+	}
+	return false
+}
+
+// c05TreeStr: the served tree (everything below r/) as the model sees it: path:kind entries, sorted
+func c05TreeStr(snap map[string]c05Ent) string {
+	var ents []string
+	for k, e := range snap {
+		if !strings.HasPrefix(k, "r/") {
+			continue
+		}
+		t := "f"
+		switch e.typ {
+		case "dir":
+			t = "d"
+		case "symlink":
+			t = "l"
+		}
+		ents = append(ents, k[2:]+":"+t)
+	}
+	if len(ents) == 0 {
+		return "-"
+	}
+	sort.Strings(ents)
+	return strings.Join(ents, ";")
+}
+
+func (w *c05World) emitFs(kind string, seq, step int, op *c05Op, before, after map[string]c05Ent, cat string) {
+	c := w.c
+	n := c.Case(kind, kvs("cfg", w.cfg), kvi("seq", seq), kvi("step", step), kvs("op", op.name), kvs("path", op.p1), kvs("tree", c05TreeStr(before)))
+	if cat == "perm" {
+		// permissions are not in the model; such a step is recorded but not compared (its expectation would be wrong by design)
+		c.Stat(kind + "_permission_outcomes_not_compared")
+		c.Oracle(n, true, "")
+		return
+	}
+	c.Obs(n, "res="+cat, "tree="+c05TreeStr(after))
+	c.Oracle(n, true, "")
+	if strings.Contains(op.p1, "/") {
+		c.NT(n)
+	}
+	c.Stat(kind + "_" + op.name)
+}
+
+// c05BigDirs (kind bigdir): the name universe of the sequences is small on purpose; here the directories are big and the names
+// long. Twin directories of n entries whose names have the given length: ReadDir, Glob with a wildcard, Walk and RemoveAll
+// through the Client against os.ReadDir, filepath.Glob, filepath.WalkDir and os.RemoveAll on the twin.
+func c05BigDirs(c *Ctx, base string) {
+	for _, sh := range []struct{ n, nameLen int }{{300, 8}, {450, 255}, {1100, 120}, {2300, 60}} {
+		rootA, rootB := filepath.Join(base, "bigA"), filepath.Join(base, "bigB")
+		os.RemoveAll(rootA)
+		os.RemoveAll(rootB)
+		var names []string
+		for i := 0; i < sh.n; i++ {
+			nm := fmt.Sprintf("e%04d", i)
+			nm += strings.Repeat("x", sh.nameLen-len(nm))
+			names = append(names, nm)
+		}
+		for _, r := range []string{rootA, rootB} {
+			os.MkdirAll(filepath.Join(r, "d"), 0o755)
+			for i, nm := range names {
+				if i%97 == 5 {
+					os.Mkdir(filepath.Join(r, "d", nm), 0o755)
+				} else {
+					os.WriteFile(filepath.Join(r, "d", nm), []byte{byte(i)}, 0o644)
+				}
+			}
+		}
+		p, err := newPair(pairOpt{})
+		if err != nil {
+			c.Diag("bigdir pair: %v", err)
+			return
+		}
+		type res struct {
+			cat string
+			val string
+		}
+		run := func(op string) (a, b res) {
+			switch op {
+			case "readdir":
+				la, ea := p.Client.ReadDir(filepath.Join(rootA, "d"))
+				lb, eb := os.ReadDir(filepath.Join(rootB, "d"))
+				var na, nb []string
+				for _, fi := range la {
+					na = append(na, fi.Name())
+				}
+				for _, de := range lb {
+					nb = append(nb, de.Name())
+				}
+				return res{c05Cat(ea), c05SortedJoin(na)}, res{c05Cat(eb), c05SortedJoin(nb)}
+			case "glob":
+				ga, ea := p.Client.Glob(filepath.Join(rootA, "d", "e*5*"))
+				gb, eb := filepath.Glob(filepath.Join(rootB, "d", "e*5*"))
+				var na, nb []string
+				for _, s := range ga {
+					na = append(na, filepath.Base(s))
+				}
+				for _, s := range gb {
+					nb = append(nb, filepath.Base(s))
+				}
+				return res{c05Cat(ea), c05SortedJoin(na)}, res{c05Cat(eb), c05SortedJoin(nb)}
+			case "walk":
+				var na, nb []string
+				var ea error
+				wk := p.Client.Walk(filepath.Join(rootA, "d"))
+				for n := 0; n < 10000 && wk.Step(); n++ {
+					if err := wk.Err(); err != nil {
+						if ea == nil {
+							ea = err
+						}
+						continue
+					}
+					na = append(na, filepath.Base(wk.Path()))
+				}
+				eb := filepath.WalkDir(filepath.Join(rootB, "d"), func(pth string, d os.DirEntry, err error) error {
+					if err != nil {
+						return err
+					}
+					nb = append(nb, filepath.Base(pth))
+					return nil
+				})
+				return res{c05Cat(ea), c05SortedJoin(na)}, res{c05Cat(eb), c05SortedJoin(nb)}
+			default: // removeall
+				ea := p.Client.RemoveAll(filepath.Join(rootA, "d"))
+				eb := os.RemoveAll(filepath.Join(rootB, "d"))
+				_, sa := os.Lstat(filepath.Join(rootA, "d"))
+				_, sb := os.Lstat(filepath.Join(rootB, "d"))
+				return res{c05Cat(ea), fmt.Sprint("gone=", os.IsNotExist(sa))}, res{c05Cat(eb), fmt.Sprint("gone=", os.IsNotExist(sb))}
+			}
+		}
+		for _, op := range []string{"readdir", "glob", "walk", "removeall"} {
+			n := c.Case("bigdir", kvs("op", op), kvi("entries", sh.n), kvi("namelen", sh.nameLen))
+			c.NT(n)
+			c.Stat("bigdir_" + op)
+			done := make(chan struct{})
+			var a, b res
+			go func() { a, b = run(op); close(done) }()
+			select {
+			case <-done:
+			case <-time.After(60 * time.Second):
+				c.Oracle(n, false, fmt.Sprintf("hang: %s on a directory of %d entries did not return within 60 s", op, sh.n))
+				p.Close()
+				return
+			}
+			switch {
+			case a.cat != b.cat:
+				c.Oracle(n, false, fmt.Sprintf("bigdir-category: %s on a directory of %d entries with %d-byte names: Client %s, package os %s", op, sh.n, sh.nameLen, a.cat, b.cat))
+			case a.val != b.val:
+				c.Oracle(n, false, fmt.Sprintf("bigdir-value: %s on a directory of %d entries with %d-byte names: the Client's result differs from package os's (%d vs %d bytes of names)", op, sh.n, sh.nameLen, len(a.val), len(b.val)))
+			default:
+				c.Oracle(n, true, "")
+			}
+		}
+		p.Close()
+		os.RemoveAll(rootA)
+		os.RemoveAll(rootB)
+	}
 }
